@@ -133,7 +133,10 @@ def settings_for(rng, d, quick):
             for i, br in enumerate(blk['branches']):
                 if br['fn'] is not None:
                     combos.add(tuple(i if bb == b else rng.randrange(nbr[bb]) for bb in range(len(nbr))))
-        while len(combos) < (10 if quick else 24):
+        total = 1
+        for k in nbr:
+            total *= k
+        while len(combos) < min(total, 10 if quick else 24):
             combos.add(tuple(rng.randrange(k) for k in nbr))
         combos = sorted(combos)
     sts = []
